@@ -75,7 +75,11 @@ class OperatorTable(Expression):
         return self.operands.always_succeeds()
 
     def can_partially_succeed(self):
-        return not self.always_succeeds() and self.operands.can_partially_succeed()
+        if self.always_succeeds():
+            return False
+
+        # A prefix operator may be consumed before the operand fails.
+        return self.prefixes is not None or self.operands.can_partially_succeed()
 
     def complain(self):
         return 'Unexpected input'
